@@ -14,7 +14,8 @@ RULE = ("enumerates every EnumMap subclass found by walking the pycomm3 package 
         "and get, membership, name carries the code), 40 non-member probes per table for membership consistency, "
         "DataTypes.get_type for every code, Services.from_reply for every service, status text for 0..255, "
         "every (status, extended status) pair of EXTEND_CODES at every encodable size; every (table, member, code) of the CIP code lists as "
-        "shipped at the pinned commit (vlib/data/code_tables.json) must still resolve both ways; distinct = "
+        "shipped at the pinned commit (vlib/data/code_tables.json) must still resolve both ways; 40 synthetic tables defined through the same "
+        "EnumMap base with lower/UPPER/Title/mixed-case member names, int or bytes codes, caps-only and one-way options; distinct = "
         "(table, member|code, casing-class|probe-kind) triples actually evaluated")
 ASSUMPTIONS = [
     "members of a table are the public non-method attributes of the class body (read from vars(cls), not from the table's own index)",
@@ -128,8 +129,12 @@ def run(ctx):
                     if not ok or not isinstance(got, str) or got.lower() not in carriers:
                         res.violation(f"code-{how}", f"{short} {how}({code!r}) -> {got!r}, expected one of {sorted(carriers)}",
                                       {"table": tname, "code": repr(code)})
-                    elif not same(M[got], val) and not same((vkey(M[got]) if vkey else M[got]), code):
-                        res.violation(f"code-{how}-roundtrip", f"{short}[{got!r}] does not carry {code!r}", None)
+                    else:
+                        ok_b, back = attempt("getitem", short, M.__getitem__, got)
+                        if not ok_b:
+                            res.violation(f"code-{how}-roundtrip", f"{short} {how}({code!r}) -> {got!r}, but {short}[{got!r}] raises {back!r:.80}", None)
+                        elif not same(back, val) and not same((vkey(back) if vkey else back), code):
+                            res.violation(f"code-{how}-roundtrip", f"{short}[{got!r}] does not carry {code!r}", None)
                 ok, got = attempt("contains", short, M.__contains__, code)
                 res.ev()
                 if not ok or got is not True:
@@ -206,9 +211,10 @@ def run(ctx):
             got = e
         if not isinstance(got, type) or getattr(got, "code", None) != code:
             res.violation("get_type", f"DataTypes.get_type({code:#x}) -> {got!r}", None)
-        nm = DataTypes.get(code)
-        if not isinstance(nm, str) or DataTypes.get(nm) is None or DataTypes.get(nm).code != code:
-            res.violation("datatype-code-name", f"DataTypes.get({code:#x}) -> {nm!r}", None)
+        ok_n, nm = attempt("get", "DataTypes", DataTypes.get, code)
+        ok_t, back = attempt("get", "DataTypes", DataTypes.get, nm) if ok_n and isinstance(nm, str) else (False, None)
+        if not ok_n or not ok_t or back is None or getattr(back, "code", None) != code:
+            res.violation("datatype-code-name", f"DataTypes.get({code:#x}) -> {nm!r}; DataTypes.get of that -> {back!r:.80}", None)
     for bad in (0x01, 0xA0, 0xC0, 0xDF, 0xE0, 0xFF, 0x100, 0x2C1):
         res.ev()
         try:
@@ -227,8 +233,48 @@ def run(ctx):
             got = Services.from_reply(bytes([code[0] | 0x80]))
         except Exception as e:
             got = e
-        if not isinstance(got, str) or Services.get(got) != code:
+        if not isinstance(got, str) or attempt("get", "Services", Services.get, got) != (True, code):
             res.violation("from_reply", f"Services.from_reply({code[0] | 0x80:#x}) -> {got!r}, expected a name of {code!r}", None)
+
+    # ---- the table mechanism itself: tables defined like the library's own, but with the member spellings a maintainer may use next ------
+    for ti in range(40):
+        names = set()
+        while len(names) < rng.randint(1, 8):
+            base = "".join(rng.choice("abcdefgh_") for _ in range(rng.randint(1, 10))).strip("_") or "x"
+            names.add(rng.choice([base, base.upper(), base.title(), base.swapcase()]) if not base[0].isdigit() else "m" + base)
+        if len({n.lower() for n in names}) != len(names):
+            continue
+        caps, bid = rng.random() < 0.4, rng.random() < 0.8
+        vals = rng.sample(range(1, 4000), len(names)) if rng.random() < 0.5 else [bytes([i + 1, rng.randrange(256)]) for i in range(len(names))]
+        body = dict(zip(sorted(names), vals))
+        ns = dict(body)
+        if caps:
+            ns["_return_caps_only_"] = True
+        if not bid:
+            ns["_bidirectional_"] = False
+        ok, T = attempt("define", "synthetic", lambda: type(EnumMap)(f"Synthetic{ti}", (EnumMap,), ns))
+        res.ev()
+        if not ok:
+            res.violation("synthetic-table-definition", f"defining an EnumMap with members {sorted(body)} (caps={caps}, bidirectional={bid}) raised {T!r:.120}", None)
+            continue
+        for name, val in body.items():
+            for cls_, spelled in casings(name, rng).items():
+                res.ev()
+                res.seen("synthetic", cls_, caps, bid, name == name.lower(), name == name.upper())
+                r1, r2, r3 = attempt("getitem", "T", T.__getitem__, spelled), attempt("get", "T", T.get, spelled), attempt("contains", "T", T.__contains__, spelled)
+                if r1 != (True, val) or r2 != (True, val) or r3 != (True, True):
+                    res.violation(f"synthetic-name-lookup:{'lowercase-member' if name == name.lower() else 'cased-member'}",
+                                  f"EnumMap with member {name!r} = {val!r}: T[{spelled!r}] -> {r1[1]!r:.60}, T.get -> {r2[1]!r:.60}, in -> {r3[1]!r:.60}", {"members": sorted(body)})
+            res.ev()
+            r1, r2, r3 = attempt("getitem", "T", T.__getitem__, val), attempt("get", "T", T.get, val), attempt("contains", "T", T.__contains__, val)
+            if bid:
+                good = all(r[0] for r in (r1, r2, r3)) and isinstance(r1[1], str) and r1[1] == r2[1] and r1[1].lower() == name.lower() and r3[1] is True
+                if good and caps and r1[1] != r1[1].upper():
+                    good = False
+                if not good:
+                    res.violation("synthetic-code-lookup", f"EnumMap (caps={caps}) with member {name!r} = {val!r}: T[{val!r}] -> {r1[1]!r:.60}, get -> {r2[1]!r:.60}, in -> {r3[1]!r:.60}", {"members": sorted(body)})
+            elif r1[0] or r2 != (True, None) or r3 != (True, False):
+                res.violation("synthetic-one-way-table-resolves-codes", f"one-way EnumMap with member {name!r} = {val!r}: T[{val!r}] -> {r1[1]!r:.60}, get -> {r2[1]!r:.60}, in -> {r3[1]!r:.60}", None)
 
     # ---- status texts -------------------------------------------------------------------
     from pycomm3.cip import EXTEND_CODES, SERVICE_STATUS
